@@ -22,11 +22,11 @@ import (
 // client.
 
 type Damage struct {
-	Kind string `json:"kind"` // truncate flip field extend zero
-	At   int64  `json:"at"`   // length / byte offset / field index
-	Bit  int    `json:"bit,omitempty"`
-	Val  uint64 `json:"val,omitempty"`
-	Wide bool   `json:"wide,omitempty"` // 64-bit field (wire point-list count)
+	Kind string   `json:"kind"` // truncate flip field extend zero
+	At   int64    `json:"at"`   // length / byte offset / field index
+	Bit  int      `json:"bit,omitempty"`
+	Val  uint64   `json:"val,omitempty"`
+	Wide bool     `json:"wide,omitempty"` // 64-bit field (wire point-list count)
 	Also []Damage `json:"also,omitempty"` // further fields set together with this one
 }
 
